@@ -150,10 +150,10 @@ def replay_case(case):
         if got.shape != w.shape:
             res["violations"].append("%s: shape %s, expected %s" % (name, got.shape, w.shape))
             return
-        tol = 1e-9 * wabs + 1e-280
+        tol = 1e-9 * wabs + 1e-150
         dev = np.abs(got - w)
         bad = ~(dev <= tol)
-        rel = float((dev / (wabs + 1e-280)).max())
+        rel = float((dev / (wabs + 1e-150)).max())
         res["dev"] = max(res["dev"], rel)
         if bad.any():
             idx = np.unravel_index(np.argmax(np.where(bad, dev / tol, 0)), dev.shape)
@@ -175,6 +175,14 @@ def replay_case(case):
                 got = None
             if got is not None:
                 cmp("evaluate_deriv_basis(orders=%s, direct) [not rejected, so it must be right]" % (orders,), got, w, wabs)
+    if T is None:
+        from . import reuse
+        hv = []
+        pts2 = fpts[::-1] * 0.875 + 0.0625
+        reuse.instance_reuse(gb, basis, "gbasis.evals.eval", "Eval", hv, "Eval", points=fpts, kw2={"points": pts2})
+        reuse.instance_reuse(gb, basis, "gbasis.evals.eval_deriv", "EvalDeriv", hv, "EvalDeriv", points=fpts, orders=np.array([1, 0, 0]),
+                             kw2={"points": fpts, "orders": np.array([0, 1, 0]), "deriv_type": "direct"})
+        res["violations"] += [v_["message"] for v_ in hv]
     return res
 
 
